@@ -32,7 +32,7 @@ func (c15) Cases(tier string, seed int64, kf *KnownFindings) []Case {
 	var cs []Case
 	per := 2
 	if tier == "thorough" {
-		per = 40
+		per = 150
 	}
 	for i, e := range zoo.Types {
 		cs = append(cs, Case{Kind: "faults", Type: e.Name, Seed: Mix(seed, 300+i), Count: per, Sub: -1})
